@@ -62,7 +62,7 @@ type event struct {
 }
 
 func (e event) String() string {
-	s := fmt.Sprintf("%d:%s s%d", e.Seq, e.Kind, e.Stage)
+	s := fmt.Sprintf("%d:%s %s", e.Seq, e.Kind, stageName(e.Stage))
 	if e.Kind == evOpStart || e.Kind == evOpEnd || e.Kind == evOpPanic || e.Kind == evOpPark || e.Kind == evOpRelease {
 		s += fmt.Sprintf(".o%d", e.Op)
 	}
@@ -73,6 +73,25 @@ func (e event) String() string {
 		s += " err=" + e.Err
 	}
 	return s + fmt.Sprintf(" g%d", e.G)
+}
+
+// A stage of the specification may be instantiated more than once in one execution (NextStages() of its parent called
+// again): every instance has its own key = spec id + instance*instStride, so that the bookkeeping of the driver (gates,
+// runners) and the facts of the oracle are per stage object.
+const instStride = 100000
+
+func specID(key int) int { return key % instStride }
+func instOf(key int) int { return key / instStride }
+
+// stageName is the identifier of a stage instance in the trace and in pipeline.Stats(): s3, s3#1 (second instance), ...
+func stageName(key int) string {
+	if key < 0 {
+		return fmt.Sprintf("s%d", key)
+	}
+	if instOf(key) > 0 {
+		return fmt.Sprintf("s%d#%d", specID(key), instOf(key))
+	}
+	return fmt.Sprintf("s%d", key)
 }
 
 func goid() int64 {
@@ -129,6 +148,7 @@ type caseRun struct {
 	runDone      map[int]bool // async stage id -> runner counted as done
 	hstack       map[int64][]int
 	nCb          int
+	instances    map[int]int // spec id -> number of stage objects built for it
 
 	pools   []concurrent.Pool
 	stats   []*metrics.ConcurrentStatistics
@@ -153,8 +173,11 @@ func (c *caseRun) rec(kind string, st, op int, err error, info string) int {
 func (c *caseRun) recLocked(kind string, st, op int, err error, info string, g int64) int {
 	if kind == evOpStart || kind == evHEnter {
 		// a pool worker runs one task after the other: the goroutine belongs to the pooled stage whose events it shows
+		// (the goroutine that called pipeline.Execute stays the caller's, whatever is invoked on it)
 		if h := c.stages[st]; h != nil && h.spec.Async {
-			c.gOwner[g] = st
+			if cur, ok := c.gOwner[g]; !ok || cur != -1 {
+				c.gOwner[g] = st
+			}
 		}
 	}
 	if c.opts.Mode == "free" && c.opts.CancelAt >= 0 && !c.cancelled && len(c.ev) >= c.opts.CancelAt {
@@ -194,7 +217,7 @@ type panicVal struct{ S string }
 
 func failToken(st, op int) string { return fmt.Sprintf("c19-fail-s%d-o%d", st, op) }
 
-func (o *hOp) Identifier() string { return fmt.Sprintf("op-s%d-o%d", o.st, o.idx) }
+func (o *hOp) Identifier() string { return fmt.Sprintf("op-%s-o%d", stageName(o.st), o.idx) }
 
 func (o *hOp) Execute() (err error) {
 	c := o.c
@@ -216,7 +239,8 @@ func (o *hOp) Execute() (err error) {
 		c.wake()
 		<-ch
 	}
-	if d := c.delayNs[o.st*16+o.idx]; d > 0 {
+	sid := specID(o.st)
+	if d := c.delayNs[sid*16+o.idx]; d > 0 {
 		if d < 2000 {
 			runtime.Gosched()
 		} else {
@@ -226,20 +250,20 @@ func (o *hOp) Execute() (err error) {
 	switch o.outcome {
 	case oOK:
 	case oErr, oErrIgnore:
-		err = errors.New(failToken(o.st, o.idx))
+		err = errors.New(failToken(sid, o.idx))
 	case oNFIgnored:
-		err = fmt.Errorf("c19-ignored-s%d-o%d %w", o.st, o.idx, constants.ErrNotFound)
+		err = fmt.Errorf("c19-ignored-s%d-o%d %w", sid, o.idx, constants.ErrNotFound)
 	case oNFPlain:
-		err = fmt.Errorf("%s %w", failToken(o.st, o.idx), constants.ErrNotFound)
+		err = fmt.Errorf("%s %w", failToken(sid, o.idx), constants.ErrNotFound)
 	case oPanicStr:
-		panic(failToken(o.st, o.idx))
+		panic(failToken(sid, o.idx))
 	case oPanicErr:
-		panic(errors.New(failToken(o.st, o.idx)))
+		panic(errors.New(failToken(sid, o.idx)))
 	case oPanicVal:
-		panic(panicVal{failToken(o.st, o.idx)})
+		panic(panicVal{failToken(sid, o.idx)})
 	case oPanicRT:
 		var m map[string]int
-		m[failToken(o.st, o.idx)] = 1 // runtime error: assignment to entry in nil map
+		m[failToken(sid, o.idx)] = 1 // runtime error: assignment to entry in nil map
 	}
 	finished = true
 	c.rec(evOpEnd, o.st, o.idx, err, o.outcome)
@@ -253,13 +277,14 @@ type hStage struct {
 	*stage.VerifStage
 	c    *caseRun
 	spec *stageSpec
+	key  int // instance key (see instStride)
 	plan stage.PlanNode
 }
 
 func (h *hStage) Plan() stage.PlanNode {
-	h.c.rec(evPlan, h.spec.ID, 0, nil, "")
+	h.c.rec(evPlan, h.key, 0, nil, "")
 	if h.spec.PlanPanic {
-		h.c.rec(evPlanPanic, h.spec.ID, 0, nil, "")
+		h.c.rec(evPlanPanic, h.key, 0, nil, "")
 		panic(fmt.Sprintf("c19-fail-s%d-plan", h.spec.ID))
 	}
 	return h.plan
@@ -267,15 +292,13 @@ func (h *hStage) Plan() stage.PlanNode {
 
 func (h *hStage) Execute(node stage.PlanNode, completeHandle func(), errHandle func(err error)) {
 	c := h.c
-	id := h.spec.ID
+	id := h.key
 	async := h.VerifStage.IsAsync()
 	g := goid()
 	c.mu.Lock()
 	info := "sync"
 	if async {
-		info = "async"
-		c.started++
-		c.subm[h.depthPool()]++
+		info = "async" // (the runner of a pooled stage starts when its task is handed to the pool: see cntPool.Submit)
 	}
 	c.recLocked(evExecEnter, id, 0, nil, info, g)
 	c.mu.Unlock()
@@ -333,7 +356,21 @@ func (h *hStage) Execute(node stage.PlanNode, completeHandle func(), errHandle f
 	returned = true
 }
 
-func (h *hStage) depthPool() int { return h.c.poolIndex(h.spec) }
+// cntPool delegates to the real pool and counts the tasks handed to it: the exact number the pool's own
+// consumed/panic/rejected counters are compared with, and the moment the runner of a pooled stage starts.
+type cntPool struct {
+	concurrent.Pool
+	c   *caseRun
+	idx int
+}
+
+func (p *cntPool) Submit(ctx context.Context, task *concurrent.Task) {
+	p.c.mu.Lock()
+	p.c.subm[p.idx]++
+	p.c.started++
+	p.c.mu.Unlock()
+	p.Pool.Submit(ctx, task)
+}
 
 func (h *hStage) NextStages() []stage.Stage {
 	return h.VerifStage.NextStages()
@@ -356,34 +393,16 @@ func (c *caseRun) handlerEntered(id int) chan struct{} {
 	return ch
 }
 
-func (c *caseRun) poolIndex(s *stageSpec) int {
-	return c.depthOf(s.ID) % len(c.pools)
-}
-
-func (c *caseRun) depthOf(id int) int {
-	d := -1
-	var walk func(s *stageSpec, depth int)
-	walk = func(s *stageSpec, depth int) {
-		if s.ID == id {
-			d = depth
-			return
-		}
-		for _, ch := range s.Children {
-			if d < 0 {
-				walk(ch, depth+1)
-			}
-		}
-	}
-	walk(c.spec.Root, 0)
-	return d
-}
-
 func (c *caseRun) build(s *stageSpec, depth int) stage.Stage {
 	var plan stage.PlanNode
 	serial := c.opts.Mode == "serial"
+	c.mu.Lock()
+	id := s.ID + c.instances[s.ID]*instStride
+	c.instances[s.ID]++
+	c.mu.Unlock()
 	mk := func(i int) stage.PlanNode {
 		o := s.Ops[i]
-		op := &hOp{c: c, st: s.ID, idx: i, outcome: o.Outcome, gated: serial && i == 0}
+		op := &hOp{c: c, st: id, idx: i, outcome: o.Outcome, gated: serial && i == 0}
 		if o.Outcome == oNFIgnored || o.Outcome == oErrIgnore {
 			return stage.NewPlanNodeWithIgnore(op)
 		}
@@ -415,18 +434,17 @@ func (c *caseRun) build(s *stageSpec, depth int) stage.Stage {
 	var pool concurrent.Pool
 	ctx := c.ctx
 	if s.Async {
-		pool = c.pools[depth%len(c.pools)]
+		pool = &cntPool{Pool: c.pools[depth%len(c.pools)], c: c, idx: depth % len(c.pools)}
 	} else if s.NilCtx {
-		pool = c.pools[depth%len(c.pools)]
+		pool = &cntPool{Pool: c.pools[depth%len(c.pools)], c: c, idx: depth % len(c.pools)}
 		ctx = nil
 	}
-	id := s.ID
-	h := &hStage{c: c, spec: s, plan: plan}
+	h := &hStage{c: c, spec: s, key: id, plan: plan}
 	next := func() []stage.Stage {
 		c.rec(evNextEnter, id, 0, nil, "")
 		if s.NextPanic {
 			c.rec(evNextPanic, id, 0, nil, "")
-			panic(fmt.Sprintf("c19-fail-s%d-next", id))
+			panic(fmt.Sprintf("c19-fail-s%d-next", s.ID))
 		}
 		var out []stage.Stage
 		for _, ch := range s.Children {
@@ -450,12 +468,12 @@ func (c *caseRun) build(s *stageSpec, depth int) stage.Stage {
 		}
 		if s.CompletePanic {
 			c.rec(evHookPanic, id, 0, nil, "")
-			panic(fmt.Sprintf("c19-fail-s%d-complete", id))
+			panic(fmt.Sprintf("c19-fail-s%d-complete", s.ID))
 		}
 	}
 	types := []stage.Type{stage.MetadataLookup, stage.ShardScan, stage.Grouping, stage.DataLoad}
 	//nolint:staticcheck // a nil context is a supported way to make a baseStage synchronous
-	h.VerifStage = stage.NewVerifStage(ctx, pool, types[depth%len(types)], fmt.Sprintf("s%d", id), plan, next, onComplete)
+	h.VerifStage = stage.NewVerifStage(ctx, pool, types[depth%len(types)], stageName(id), plan, next, onComplete)
 	c.mu.Lock()
 	c.stages[id] = h
 	c.mu.Unlock()
@@ -463,7 +481,7 @@ func (c *caseRun) build(s *stageSpec, depth int) stage.Stage {
 }
 
 const (
-	caseWatchdog = 40 * time.Second
+	caseWatchdog = 20 * time.Second
 )
 
 // caseOutcome is what the driver hands to the oracle.
@@ -507,7 +525,7 @@ func runCaseOnce(spec *treeSpec, opts runOpts) *caseOutcome {
 	c := &caseRun{
 		spec: spec, opts: opts, notify: make(chan struct{}, 1),
 		parked: map[int]chan struct{}{}, parkedG: map[int]int64{}, gOwner: map[int64]int{}, runDone: map[int]bool{}, hstack: map[int64][]int{},
-		delayNs: map[int]int64{}, stages: map[int]*hStage{}, hEnteredCh: map[int]chan struct{}{}, hEnteredDone: map[int]bool{},
+		delayNs: map[int]int64{}, stages: map[int]*hStage{}, instances: map[int]int{}, hEnteredCh: map[int]chan struct{}{}, hEnteredDone: map[int]bool{},
 	}
 	c.ctx, c.cancel = context.WithCancel(context.Background())
 	defer c.cancel()
@@ -626,25 +644,47 @@ func runCaseOnce(spec *treeSpec, opts runOpts) *caseOutcome {
 	}
 	lastLen := -1
 	stallSince := time.Now()
+	spins := 0
 	for {
 		c.mu.Lock()
 		running := c.started - c.done - len(c.parked)
 		nParked := len(c.parked)
 		curLen := len(c.ev)
 		c.mu.Unlock()
-		if running == 0 && nParked == 0 {
-			break
-		}
-		if running == 0 && nParked > 0 {
-			releaseNext() // settled
-			continue
-		}
-		// somebody is running: wait for the next event.  No verdict depends on how long this takes: a case that makes
-		// no progress is given up as inconclusive by a watchdog that restarts whenever the trace moves.
+		// No verdict depends on how long anything takes: a case that makes no progress is given up as inconclusive by a
+		// watchdog that restarts whenever the trace moves.
 		if curLen != lastLen {
 			lastLen = curLen
 			stallSince = time.Now()
+			spins = 0
 		}
+		if running <= 0 {
+			// By the driver's bookkeeping nobody runs (below zero: a stage that was already counted as over - its handler
+			// returned - is active again and waits at a gate: a handler invoked twice).  The pools' own counters and the handler stacks must agree before
+			// the driver acts on it: a stage whose completion handler was already called may still have a task queued
+			// (a handler invoked twice), and a pool counts a task as consumed a moment after its function returned.
+			if !c.frozen() {
+				if time.Since(stallSince) > caseWatchdog {
+					out.Watchdog = fmt.Sprintf("no progress for %s: every runner is accounted for but the pools' task counters / handler stacks never become idle; %s", caseWatchdog, c.blockedInSubmit())
+					break
+				}
+				if spins++; spins < 20 {
+					runtime.Gosched()
+				} else {
+					time.Sleep(100 * time.Microsecond)
+				}
+				continue
+			}
+			if traceLen() != curLen {
+				continue
+			}
+			if nParked == 0 {
+				break
+			}
+			releaseNext() // settled
+			continue
+		}
+		// somebody is running: wait for the next event.
 		select {
 		case <-c.notify:
 			continue
@@ -692,7 +732,7 @@ func runCaseOnce(spec *treeSpec, opts runOpts) *caseOutcome {
 			c.mu.Lock()
 			lost := c.lostRunnersLocked()
 			c.mu.Unlock()
-			out.Watchdog = fmt.Sprintf("no progress for %s: runners neither parked nor done; async stages handed to a pool without any activity: %v", caseWatchdog, lost)
+			out.Watchdog = fmt.Sprintf("no progress for %s: runners neither parked nor done; async stages handed to a pool without any activity: %v; %s", caseWatchdog, stageNames(lost), c.blockedInSubmit())
 			break
 		}
 	}
@@ -861,6 +901,28 @@ func (c *caseRun) selfDeadlock() string {
 		}
 	}
 	return ""
+}
+
+// blockedInSubmit describes (for a watchdog message only) how many goroutines of this case wait inside Pool.Submit.
+func (c *caseRun) blockedInSubmit() string {
+	c.mu.Lock()
+	mine := map[string]bool{}
+	for _, e := range c.ev {
+		if e.G != 0 {
+			mine[fmt.Sprint(e.G)] = true
+		}
+	}
+	c.mu.Unlock()
+	buf := make([]byte, 8<<20)
+	n := runtime.Stack(buf, true)
+	blocked := 0
+	for _, b := range strings.Split(string(buf[:n]), "\n\n") {
+		m := reGoroutineHdr.FindStringSubmatch(b)
+		if m != nil && mine[m[1]] && strings.Contains(b, "workerPool).Submit") {
+			blocked++
+		}
+	}
+	return fmt.Sprintf("%d goroutines of the case wait inside Pool.Submit (task queue full)", blocked)
 }
 
 // frozen reports whether nothing of this case can be executing: see the driver loop.
